@@ -438,6 +438,14 @@ class Shadow:
             return Cell(Rat.app(self.atoms, "tensordot", (self.rat(a[0]), self.rat(a[1]))))
         if name in ("torch.autograd.profiler.record_function",):
             return None
+        if name.startswith("torch.") and not name.startswith(("torch.distributed", "torch.backends", "torch.cuda")):
+            # any other torch function: an uninterpreted function of its tensor / scalar arguments (keyword values included)
+            vals = []
+            for a in args():
+                if isinstance(a, (Cell, Rat, int, float, Fraction)) and not isinstance(a, bool):
+                    vals.append(self.rat(a))
+            key = ",".join(f"{k.arg}={ast.unparse(k.value)}" for k in e.keywords if k.arg)
+            return Cell(Rat.app(self.atoms, name, tuple(vals), key=key))
         # ---- tensor methods
         if isinstance(f, ast.Attribute) and name.startswith("."):
             recv = self.ev(f.value, fr, fi)
@@ -459,7 +467,13 @@ class Shadow:
                     return Cell(res)
                 if m in ("any", "item", "numel", "dim"):
                     raise Unsupported(f"data-dependent value {ast.unparse(e)[:40]} (decide it in the case)")
-                raise Unsupported(f"tensor method {m}")
+                # any other tensor method: an uninterpreted function of the receiver and its arguments
+                vals = [x] + [self.rat(v) for v in a if isinstance(v, (Cell, Rat, int, float, Fraction)) and not isinstance(v, bool)]
+                res = Rat.app(self.atoms, "Tensor." + base, tuple(vals), key=",".join(f"{k.arg}={ast.unparse(k.value)}" for k in e.keywords if k.arg))
+                if m.endswith("_"):
+                    recv.v = res
+                    return recv
+                return Cell(res)
             if isinstance(recv, Obj) or recv is None:
                 pass
         # ---- repo callees: inline when listed
